@@ -73,12 +73,13 @@ fn build(ch: &mut Chooser, family: &str) -> (&'static str, Vec<u8>, String, bool
             (reader, cfb::write(&e, &lay), format!("encrypted OOXML: package {size} bytes, info variant {info}, dataspaces {dataspaces}, {lay:?}"), true)
         }
         "biff" => {
-            let kind = ch.choose("filepass-kind", 4);
+            let kind = ch.choose("filepass-kind", 5);
             let payload: Vec<u8> = match kind {
                 0 => { let mut v = 1u16.to_le_bytes().to_vec(); v.extend(1u16.to_le_bytes()); v.extend(1u16.to_le_bytes()); v.extend(cipher(48, 8)); v } // RC4 1.1
                 1 => { let mut v = 0u16.to_le_bytes().to_vec(); v.extend(0x1234u16.to_le_bytes()); v.extend(0x5678u16.to_le_bytes()); v } // XOR obfuscation
                 2 => { let mut v = 1u16.to_le_bytes().to_vec(); v.extend(2u16.to_le_bytes()); v.extend(2u16.to_le_bytes()); v.extend(cipher(196, 9)); v } // RC4 CryptoAPI v2
-                _ => { let mut v = 1u16.to_le_bytes().to_vec(); v.extend(4u16.to_le_bytes()); v.extend(2u16.to_le_bytes()); v.extend(cipher(220, 10)); v } // RC4 CryptoAPI v4
+                3 => { let mut v = 1u16.to_le_bytes().to_vec(); v.extend(4u16.to_le_bytes()); v.extend(2u16.to_le_bytes()); v.extend(cipher(220, 10)); v } // RC4 CryptoAPI v4
+                _ => { let mut v = 0x1234u16.to_le_bytes().to_vec(); v.extend(0x5678u16.to_le_bytes()); v } // BIFF5 (Excel 5.0/95): bare XOR key + verifier, no wEncryptionType
             };
             let after_writeprotect = ch.flag("filepass-after-writeprotect");
             let mut book = biff8::BBook { sheets: vec![biff8::BSheet::new("S", vec![biff8::BCell::Number { r: 0, c: 0, xf: 0, v: 1.0 }, biff8::BCell::Label { r: 1, c: 0, xf: 0, text: "secret".into(), wide: false }])], ..Default::default() };
@@ -99,9 +100,11 @@ fn build(ch: &mut Chooser, family: &str) -> (&'static str, Vec<u8>, String, bool
                 if t == 0x002F { seen_fp = true; }
                 p += 4 + l;
             }
+            // the BIFF5 form lives in a BIFF5 workbook: BOF version 0x0500, stream named Book
+            if kind == 4 { stream[4] = 0x00; stream[5] = 0x05; }
             if ch.flag("workbook-in-regular-sectors") && stream.len() < 4096 { stream.resize(4096, 0); }
             let lay = layout(ch);
-            ("xls", cfb::simple(&[("Workbook", stream)], &lay), format!("BIFF8 FILEPASS kind {kind} (0 RC4, 1 XOR, 2/3 CryptoAPI), after WRITEPROTECT: {after_writeprotect}, {lay:?}"), true)
+            ("xls", cfb::simple(&[(if kind == 4 { "Book" } else { "Workbook" }, stream)], &lay), format!("BIFF FILEPASS kind {kind} (0 RC4, 1 XOR, 2/3 CryptoAPI, 4 BIFF5 XOR in a Book stream), after WRITEPROTECT: {after_writeprotect}, {lay:?}"), true)
         }
         "ods" => {
             let extra = ch.choose("manifest-extra-entries", 3);
@@ -153,7 +156,7 @@ fn run_case(rep: &Report, ch: &mut Chooser, family: &str, local: &mut Vec<(u64, 
 
 pub fn check(rep: &Report) {
     let t = crate::thorough(&rep.tier);
-    rep.rule("encrypted OOXML: EncryptedPackage of {8, 4095, 4096, 4097, 5000, 70000} bytes x EncryptionInfo {standard, agile, agile > 4096 bytes, absent} x DataSpaces storage present/absent x CFB layouts (v3/v4, 5 sector orders, mini order, unused entries, directory order, free sectors), opened with Xlsx and Xlsb; BIFF8: FILEPASS of 4 kinds (RC4, XOR obfuscation, CryptoAPI v2/v4) directly after BOF or after WRITEPROTECT, record bodies garbled, mini stream or regular sectors, CFB layouts; ods: manifests with 3-5 entries and encryption-data on the first, a middle, the last, all or several entries, ciphertext content; converse: unencrypted workbooks of all four formats (xlsx under every encoding of C01, xls under CFB layouts with extra streams, names and strings that spell 'EncryptedPackage' / 'FILEPASS' / 'encryption-data') must open; full product for ods and plain, <= 3 (thorough: full product) deviations for ooxml and biff; non-trivial = non-default choice");
+    rep.rule("encrypted OOXML: EncryptedPackage of {8, 4095, 4096, 4097, 5000, 70000} bytes x EncryptionInfo {standard, agile, agile > 4096 bytes, absent} x DataSpaces storage present/absent x CFB layouts (v3/v4, 5 sector orders, mini order, unused entries, directory order, free sectors), opened with Xlsx and Xlsb; BIFF: FILEPASS of 5 kinds (BIFF8 RC4, XOR obfuscation, CryptoAPI v2/v4; the 4-byte BIFF5 XOR form in a Book stream) directly after BOF or after WRITEPROTECT, record bodies garbled, mini stream or regular sectors, CFB layouts; ods: manifests with 3-5 entries and encryption-data on the first, a middle, the last, all or several entries, ciphertext content; converse: unencrypted workbooks of all four formats (xlsx under every encoding of C01, xls under CFB layouts with extra streams, names and strings that spell 'EncryptedPackage' / 'FILEPASS' / 'encryption-data') must open; full product for ods and plain, <= 3 (thorough: full product) deviations for ooxml and biff; non-trivial = non-default choice");
     rep.assume("ciphertext is pseudo-random bytes; EncryptedPackage starts with its 8-byte size prefix");
     let stats = Mutex::new(Stats::default());
     ["ooxml", "biff", "ods", "plain"].par_iter().for_each(|fam| {
